@@ -247,8 +247,10 @@ def run(repo, tier):
 def _adds_other(st, var):
     """defined_refs.add(<name>.ref) for a name other than `var` (the loop variable over the arguments, whatever it is called)."""
     for c in calls_in(st):
-        if isinstance(c.func, ast.Attribute) and c.func.attr == "add" and (dotted(c.func.value) or "").endswith(".defined_refs"):
-            if c.args and isinstance(c.args[0], ast.Attribute) and c.args[0].attr == "ref" and isinstance(c.args[0].value, ast.Name) and c.args[0].value.id != var:
+        if isinstance(c.func, ast.Attribute) and c.func.attr in ("add", "update") and (dotted(c.func.value) or "").endswith(".defined_refs") and c.args:
+            # add(a.ref) in a loop, or update(<a.ref for a in args>): the refs of names other than the node being printed
+            refs = [x for x in ast.walk(c.args[0]) if isinstance(x, ast.Attribute) and x.attr == "ref" and isinstance(x.value, ast.Name)]
+            if refs and all(x.value.id != var for x in refs):
                 return True
     return False
 
